@@ -868,6 +868,16 @@ func (s *Sim) Kill() (unreachable []string) {
 	return
 }
 
+// Abandon leaves the remaining tasks parked for ever (their goroutines stay
+// blocked on their private channels). Used after a stuck run: letting them exit
+// through their deferred functions could run code in a state the program can
+// never be in (e.g. an unlock of a lock the task was only about to take).
+//
+//go:norace
+func (s *Sim) Abandon() {
+	s.FS.dead = true
+}
+
 // LiveTasks lists the tasks that have not finished.
 //
 //go:norace
@@ -1013,6 +1023,17 @@ func RUnlock(m *sync.RWMutex, site string) {
 	m.RUnlock()
 	unlockNote(2, rwAddr(m))
 }
+
+// Method values (unlock := mu.Unlock): the receiver is bound now, the
+// operation goes through the simulator when the value is called.
+func MVLock(m *sync.Mutex, site string) func()       { return func() { Lock(m, site) } }
+func MVUnlock(m *sync.Mutex, site string) func()     { return func() { Unlock(m, site) } }
+func MVRWLock(m *sync.RWMutex, site string) func()   { return func() { RWLock(m, site) } }
+func MVRWUnlock(m *sync.RWMutex, site string) func() { return func() { RWUnlock(m, site) } }
+func MVRLock(m *sync.RWMutex, site string) func()    { return func() { RLock(m, site) } }
+func MVRUnlock(m *sync.RWMutex, site string) func()  { return func() { RUnlock(m, site) } }
+func MVWGDone(wg *sync.WaitGroup, site string) func() { return func() { WGDone(wg, site) } }
+func MVWGWait(wg *sync.WaitGroup, site string) func() { return func() { WGWait(wg, site) } }
 
 // ---------------------------------------------------------------- wait groups, channels
 
